@@ -2,11 +2,16 @@
 C11 — recovered displacement / strain fields match the Ritz series and the Donnell kinematics.
 Kernel models regenerated from compmech/panel/models/clt_bardell_field*.pyx on every run
 (per point, per degree of freedom); the Python-level chunking is the hand model Model/Chunking.lean.
+
+`Panel.stress` (plain Python, no C-level routine: the field kernels have none, so nothing can be regenerated for it) is the small HAND
+model `panelStress` of Model/Chunking.lean; its tie to the running code is the numerical clause "stress = F * strain of the same
+option" of tools/props/C11.py (both `NLterms` values on every generated case), not a recorded-trace correspondence.
 -/
 import CompmechVerif.Gen.Field.Clt
 import CompmechVerif.Gen.Field.CltW
 import CompmechVerif.Spec.Kinematics
 import CompmechVerif.Model.ChunkingLemmas
+import CompmechVerif.Spec.FieldStress
 import CompmechVerif.Core.OpSpecTactics
 import Mathlib.Tactic.NormNum
 import Mathlib.Algebra.Order.Field.Rat
@@ -92,5 +97,90 @@ theorem chunking_invariant {α β : Type} (f : α → β) (z : α) (xs : List α
   chunkedMap_eq_map f z xs cores h
 
 end chunking
+
+section stress
+open Compmech.Chunking
+open scoped BigOperators
+
+/-- `Panel.stress` returns, point by point, the LAMINATE MATRIX TIMES THE STRAINS OF THE SAME OPTION: for every laminate matrix (passed as
+`F` or taken from `self.F`), every field kernel, every point list, every `num_cores ≥ 1` and both values of `NLterms`,
+(1) the result is the image under `applyF F` of exactly what `Panel.strain(…, NLterms=NLterms)` returns — `NLterms` is FORWARDED —,
+(2) these strains are the kernel's strains for the flag `int(NLterms)` at the requested points, in order,
+(3) `applyF F e` is the matrix–vector product: component `r` of `(Nxx, Nyy, Nxy, Mxx, Myy, Mxy)` is `Σ_q F[r, q] · e_q` with
+`e = (exx, eyy, gxy, kxx, kyy, kxy)`. -/
+theorem stress_eq_F_strain {α K : Type} [Field K] (selfF Farg : Option (Fin 6 → Fin 6 → K))
+    (F : Fin 6 → Fin 6 → K) (hF : Farg = some F ∨ (Farg = none ∧ selfF = some F))
+    (kernel : Nat → α → Strain6 K) (z : α) (cores : Nat) (h : 1 ≤ cores) (NLterms : Bool) (pts : List α) :
+    panelStress selfF Farg kernel z cores NLterms pts =
+        some ((panelStrain kernel z cores NLterms pts).map (applyF F)) ∧
+    panelStrain kernel z cores NLterms pts = pts.map (kernel (if NLterms then 1 else 0)) ∧
+    ∀ (e : Strain6 K) (r : Fin 6), (applyF F e).vec r = ∑ q : Fin 6, F r q * e.vec q :=
+  ⟨panelStress_some selfF Farg F hF kernel z cores NLterms pts, panelStrain_eq_map kernel z cores h NLterms pts,
+    fun e r => applyF_vec F e r⟩
+
+/-- … in particular `stress(…, NLterms=False)` is computed from the LINEAR strains only: whatever the kernel does for the flag 1 has no
+influence (the defect `C11-stress-ignores-NLterms`, repaired in the source, is excluded by the model), and `stress(…, NLterms=True)`
+from the strains of the flag 1. -/
+theorem stress_nlterms_forwarded {α K : Type} [Field K] (selfF Farg : Option (Fin 6 → Fin 6 → K))
+    (F : Fin 6 → Fin 6 → K) (hF : Farg = some F ∨ (Farg = none ∧ selfF = some F))
+    (kernel : Nat → α → Strain6 K) (z : α) (cores : Nat) (h : 1 ≤ cores) (pts : List α) :
+    panelStress selfF Farg kernel z cores false pts = some (pts.map fun x => applyF F (kernel 0 x)) ∧
+    panelStress selfF Farg kernel z cores true pts = some (pts.map fun x => applyF F (kernel 1 x)) := by
+  constructor
+  · rw [panelStress_some selfF Farg F hF, panelStrain_eq_map kernel z cores h, List.map_map]; rfl
+  · rw [panelStress_some selfF Farg F hF, panelStrain_eq_map kernel z cores h, List.map_map]; rfl
+
+/-- without a laminate matrix (`F=None` and `self.F is None`) `Panel.stress` raises (`none`) instead of returning numbers -/
+theorem stress_requires_laminate {α K : Type} [Field K] (kernel : Nat → α → Strain6 K) (z : α) (cores : Nat)
+    (NLterms : Bool) (pts : List α) :
+    panelStress (none : Option (Fin 6 → Fin 6 → K)) none kernel z cores NLterms pts = none :=
+  panelStress_none kernel z cores NLterms pts
+
+/-- ON THE REGENERATED STRAIN TERMS: with the kernel `cfstrain` assembled from the regenerated increments of `Gen/Field/Clt.lean`
+(`cltKernel`: sum over the degrees of freedom, `flagcyl` branch), `Panel.stress(…, NLterms=False)` returns at every requested point
+`N_r = Σ_q F[r, q] · ε_q` with `ε` the LINEAR Donnell strains / curvatures of the whole series there (operator tables of C02; flat model:
+no condition on `r`). -/
+theorem stress_linear_eq_F_donnell {α K : Type} [Field K] [CharZero K] (selfF Farg : Option (Fin 6 → Fin 6 → K))
+    (F : Fin 6 → Fin 6 → K) (hF : Farg = some F ∨ (Farg = none ∧ selfF = some F))
+    (cyl : Bool) (dofsAt : α → List (FCtx K)) (z : α) (cores : Nat) (h : 1 ≤ cores) (pts : List α)
+    (hpts : ∀ x ∈ pts, ∀ X ∈ dofsAt x, X.a ≠ 0 ∧ X.b ≠ 0 ∧ (cyl = true → X.r ≠ 0)) :
+    ∃ res : List (Res6 K), panelStress selfF Farg (cltKernel cyl dofsAt) z cores false pts = some res ∧
+      res.length = pts.length ∧
+      ∀ (p : Nat) (hp : p < pts.length) (hr : p < res.length) (r : Fin 6),
+        (res[p]).vec r = ∑ q : Fin 6, F r q * donnellStrain cyl (dofsAt pts[p]) q := by
+  refine ⟨_, (stress_nlterms_forwarded selfF Farg F hF (cltKernel cyl dofsAt) z cores h pts).1, by simp, ?_⟩
+  intro p hp hr r
+  rw [List.getElem_map, applyF_vec]
+  refine Finset.sum_congr rfl fun q _ => ?_
+  rw [cltKernel_linear cyl dofsAt pts[p] (hpts _ (List.getElem_mem hp)) q]
+
+/-- non-vacuity: two points, three worker threads, a full laminate matrix `F[r, q] = r + 2q + 1`, a kernel that returns different
+strains for the two flags -/
+example :
+    panelStress (K := ℚ) none (some fun r q => (r.val : ℚ) + 2 * q.val + 1)
+      (fun flag (x : ℚ) => ⟨x, 2, 3, flag, 5, 6⟩) 0 3 false [1, 10] =
+      some [⟨133, 150, 167, 184, 201, 218⟩, ⟨142, 168, 194, 220, 246, 272⟩] ∧
+    panelStress (K := ℚ) none (some fun r q => (r.val : ℚ) + 2 * q.val + 1)
+      (fun flag (x : ℚ) => ⟨x, 2, 3, flag, 5, 6⟩) 0 3 true [1, 10] =
+      some [⟨140, 158, 176, 194, 212, 230⟩, ⟨149, 176, 203, 230, 257, 284⟩] := by
+  constructor
+  · rw [(stress_nlterms_forwarded none _ _ (Or.inl rfl) _ 0 3 (by norm_num) _).1]
+    norm_num [applyF, stressRow]
+  · rw [(stress_nlterms_forwarded none _ _ (Or.inl rfl) _ 0 3 (by norm_num) _).2]
+    norm_num [applyF, stressRow]
+
+/-- non-vacuity of `stress_linear_eq_F_donnell`: a cylindrical panel (`a = b = 2`, `r = 1`), one degree of freedom whose amplitudes
+depend on the point, `NL` stored as 1 in the contexts (overwritten by the forwarded flag 0), two worker threads -/
+example : ∃ res : List (Res6 ℚ),
+    panelStress none (some fun r q => (r.val : ℚ) + 2 * q.val + 1)
+      (cltKernel true fun x : ℚ => [⟨2, 2, 1, 1, fun _ => x, fun _ _ _ => 1⟩]) 0 2 false [1, 3] = some res ∧
+    res.length = 2 ∧
+    ∀ (p : Nat) (hp : p < 2) (hr : p < res.length) (r : Fin 6),
+      (res[p]).vec r = ∑ q : Fin 6, ((r.val : ℚ) + 2 * q.val + 1) *
+        donnellStrain true [⟨2, 2, 1, 1, fun _ => [1, 3][p], fun _ _ _ => 1⟩] q :=
+  stress_linear_eq_F_donnell none _ _ (Or.inl rfl) true _ 0 2 (by norm_num) [1, 3]
+    (by intro x _ X hX; simp only [List.mem_cons, List.not_mem_nil, or_false] at hX; subst hX; norm_num)
+
+end stress
 
 end Compmech.Panel.C11
